@@ -237,6 +237,11 @@ func Main() int {
 				if len(fired) > 0 {
 					r.Status = "false-alarm"
 					r.Detail = fmt.Sprintf("a behaviour-preserving variant made obligations fail: %v", fired)
+					if m.Rule != "" {
+						// a documented limitation of the checker (DESIGN.md 9.7): reported, not counted as a failure
+						r.Status = "limitation"
+						r.Detail = m.Rule + " — " + r.Detail
+					}
 				}
 			default:
 				r.Status = "survived"
@@ -354,6 +359,7 @@ func loadVariants(p *Property, verifDir string) error {
 		Name  string   `json:"name"`
 		Props []string `json:"props"`
 		Why   string   `json:"why"`
+		Limit string   `json:"limitation"`
 		Edits []Edit   `json:"edits"`
 	}
 	if err := json.Unmarshal(b, &vs); err != nil {
@@ -371,7 +377,7 @@ func loadVariants(p *Property, verifDir string) error {
 				}
 			}
 			if !dup {
-				p.Benign = append(p.Benign, Mutant{Name: v.Name, File: v.Edits[0].File, Old: v.Edits[0].Old, New: v.Edits[0].New, More: v.Edits[1:]})
+				p.Benign = append(p.Benign, Mutant{Name: v.Name, File: v.Edits[0].File, Old: v.Edits[0].Old, New: v.Edits[0].New, More: v.Edits[1:], Rule: v.Limit})
 			}
 		}
 	}
